@@ -182,6 +182,11 @@ def hasIterP : List (Value × Value) → Bool
   | (k, v) :: r => hasIter k || hasIter v || hasIterP r
 end
 
+/-- what using `k` as a dictionary key raises when it is not hashable by content: TypeError - unless a one-shot
+    iterator is (in) it, which Python hashes by IDENTITY (the lookup / insertion then succeeds and finds nothing, the
+    finaliser fails later): not modelled -/
+def keyErr (k : Value) : Err := if hasIter k then .outOfDomain else .type
+
 /-- `#get_context_data`: `context[name]`, missing -> null -/
 def readVar (C : Ctx) (x : Name) : R Obj :=
   match C.get x with
@@ -295,7 +300,7 @@ def toDictL (kf vf : Value → R Value) (acc : KV) : VL → Option Err → R KV
   | x :: xs, e => do
     let k ← kf x
     let v ← vf x
-    if hashable k then toDictL kf vf (Seq.dSet acc k v) xs e else .error .type
+    if hashable k then toDictL kf vf (Seq.dSet acc k v) xs e else .error (keyErr k)
 
 /-- consume everything (`tuple(it)`, `len`) -/
 def drain (s : VL × Option Err) : R VL :=
@@ -376,22 +381,41 @@ def indexer (r : Obj) (args : VL) : R Obj :=
     | some i => do let v ← liftSeq (Seq.pyIndex l i); pure (.val v)
     | none => .error .noFunction
   | .val (.dict d), [k] =>
-    if hashable k then (match Seq.dGet d k with | some v => .ok (.val v) | none => .error .key) else .error .type
+    if hashable k then (match Seq.dGet d k with | some v => .ok (.val v) | none => .error .key) else .error (keyErr k)
   | .val (.dict d), [k, dflt] =>
-    if hashable k then .ok (.val ((Seq.dGet d k).getD dflt)) else .error .type
+    if hashable k then .ok (.val ((Seq.dGet d k).getD dflt)) else .error (keyErr k)
   | _, _ => .error .noFunction
 
-/-- `x.name` for one element of a collection -/
-def memberV (name : Name) (x : Value) : R Value :=
-  match x with
+mutual
+/-- `x.name` for one element of a collection: one more `#operator_.` call, dispatched on the kind of THIS
+    element (`collection_attribution` calls its `Delegate('#operator_.')` per element) - a dictionary gives
+    its entry, an element that is a collection itself gives the (lazy) projection of ITS elements, whatever
+    kinds its neighbours are of; that `map` object is stored as data into the outer projection, so it must
+    not carry an exception (`toV`). -/
+def memberV (name : Name) : Value → R Value
   | .dict d => match Seq.dGet d (.str name) with | some v => .ok v | none => .error .key
-  | .tuple _ | .list _ | .set _ | .iter _ => .error .outOfDomain   -- a nested lazy projection
-  | _ => .error .unknownFunction                                  -- `#property#name`
+  | .tuple l | .list l | .iter l => do let s ← memberVL name l; toV (.lazy s.1 s.2)
+  | .set _ => .error .outOfDomain
+  | .null | .bool _ | .int _ | .flt _ | .str _ | .host _ => .error .unknownFunction       -- `#property#name`
+/-- `map(lambda t: operator(t, name), l)` (= `mapL (memberV name) l none`, see `memberVL_eq`) -/
+def memberVL (name : Name) : List Value → R (VL × Option Err)
+  | [] => .ok ([], none)
+  | x :: xs => do
+    match ← capture (memberV name x) with
+    | .error er => pure ([], some er)
+    | .ok v => let r ← memberVL name xs; pure (v :: r.1, r.2)
+end
+
+theorem memberVL_eq (name : Name) : ∀ l : List Value, memberVL name l = mapL (memberV name) l none
+  | [] => by rw [memberVL]; rfl
+  | x :: xs => by
+    rw [memberVL, mapL, memberVL_eq name xs]
 
 /-- `receiver.name`: dict key, or the projection of every element of a collection -/
 def memberOf (r : Obj) (name : Name) : R Obj :=
   match r with
   | .val (.dict d) => match Seq.dGet d (.str name) with | some v => .ok (.val v) | none => .error .key
+  | .val (.set _) => .error .outOfDomain
   | r =>
     match toIter r with
     | some (items, err) => do let s ← mapL (memberV name) items err; pure (.lazy s.1 s.2)
@@ -399,7 +423,8 @@ def memberOf (r : Obj) (name : Name) : R Obj :=
 
 /-- `FrozenDict(pairs)` -/
 def mkDict (ps : KV) : R Obj :=
-  if ps.all (fun p => hashable p.1) then .ok (.val (.dict (Seq.dOfPairs ps))) else .error .type
+  if ps.all (fun p => hashable p.1) then .ok (.val (.dict (Seq.dOfPairs ps)))
+  else .error (if ps.any (fun p => hasIter p.1) then .outOfDomain else .type)
 
 /-- the elements one argument of `list(...)` contributes: iterators are opened -/
 def listArg : Obj → R VL
@@ -653,7 +678,7 @@ def callMethod (ev : Ev) (C : Ctx) (bad : Err) (r : Obj) (f : Fn) (args : List E
     | .val (.dict d) => do
       let ko ← ev C k
       let kv ← toV ko
-      if hashable kv then pure (.val ((Seq.dGet d kv).getD .null)) else .error .type
+      if hashable kv then pure (.val ((Seq.dGet d kv).getD .null)) else .error (keyErr kv)
     | _ => .error bad
   | .get, [k, dflt] =>
     match r with
@@ -662,7 +687,7 @@ def callMethod (ev : Ev) (C : Ctx) (bad : Err) (r : Obj) (f : Fn) (args : List E
       let kv ← toV ko
       let dobj ← ev C dflt
       let dv ← toV dobj
-      if hashable kv then pure (.val ((Seq.dGet d kv).getD dv)) else .error .type
+      if hashable kv then pure (.val ((Seq.dGet d kv).getD dv)) else .error (keyErr kv)
     | _ => .error bad
   | .unpack, names =>
     match toIter r with
@@ -823,5 +848,180 @@ def finalise (o : Obj) : R Final :=
 def run (fuel : Nat) (doc : Value) (e : Expr) : R Final := do
   let o ← eval fuel [{ vars := [(['$', '1'], doc)] }] e
   finalise o
+
+/-! ## how the data enters: the host's own context chain
+
+A host need not call `evaluate(data=doc, context=<child of the library context>)`.  It may bind the
+document with `yaql.create_context(data=doc)` - then `$` lives in the ROOT of the chain, below the
+layers of the standard library -, hand a context that already holds variables to
+`yaql.create_context(context=..)` (they live below the library too), stack contexts with variables
+on top of the library context, and bind `$` itself in any of them.  The library layers bind no
+variable (`Props.C04.empty_frame_invisible`: such frames cannot be observed), so the chain the
+program runs in is: the host's layers from the root upwards, with the frame that binds `$` somewhere
+among them. -/
+
+/-- one context of the host: `ctx[k] = v` for each pair -/
+def hostFrame (kvs : List (Name × Value)) : Frame := { vars := bindNamed [] kvs }
+
+/-- layers given from the ROOT upwards -> the chain (head = the top context) -/
+def hostFrames (layers : List (List (Name × Value))) : Ctx := (layers.map hostFrame).reverse
+
+/-- the chain with `$` bound above the first `at` layers (`at = 0`: `create_context(data=doc)`;
+    `at = layers.length`: `evaluate(data=doc, context=top)`) -/
+def hostCtx (layers : List (List (Name × Value))) (at_ : Nat) (doc : Value) : Ctx :=
+  hostFrames (layers.drop at_) ++ { vars := [(['$', '1'], doc)] } :: hostFrames (layers.take at_)
+
+def runHost (fuel : Nat) (layers : List (List (Name × Value))) (at_ : Nat) (doc : Value) (e : Expr) : R Final := do
+  let o ← eval fuel (hostCtx layers at_ doc) e
+  finalise o
+
+/-! ## arguments passed by keyword
+
+`xs.toDict(keySelector => $.k, valueSelector => $.v)` is `xs.toDict($.k, $.v)`: a keyword argument reaches the
+parameter of that name - the name the context's naming convention gives the parameter (`key_selector` is
+`keySelector` under the default CamelCaseConvention) -, and how an argument is passed changes nothing about
+WHEN it is evaluated: a lambda passed by keyword is as lazy as a positional one, its `$` is the argument it is
+applied to.  `Expr.positional` rewrites keyword arguments of the builtin methods into positional ones; `runKw`
+evaluates the rewritten program.  (`step` itself keeps treating a method call that still has keyword arguments
+as out of domain: the functions, repeated names, gaps and evaluation orders `positional` does not translate.) -/
+
+/-- the parameters of a builtin METHOD after its receiver, by the keyword the default convention passes them
+    by, with "evaluated lazily" (a `Lambda()` parameter); `none`: keyword arguments are not modelled -/
+def kwParams : Fn → Option (List (Name × Bool))
+  | .select => some [(['s', 'e', 'l', 'e', 'c', 't', 'o', 'r'], true)]
+  | .where_ => some [(['p', 'r', 'e', 'd', 'i', 'c', 'a', 't', 'e'], true)]
+  | .selectMany => some [(['s', 'e', 'l', 'e', 'c', 't', 'o', 'r'], true)]
+  | .orderBy => some [(['s', 'e', 'l', 'e', 'c', 't', 'o', 'r'], true)]
+  | .orderByDescending => some [(['s', 'e', 'l', 'e', 'c', 't', 'o', 'r'], true)]
+  | .takeWhile => some [(['p', 'r', 'e', 'd', 'i', 'c', 'a', 't', 'e'], true)]
+  | .skipWhile => some [(['p', 'r', 'e', 'd', 'i', 'c', 'a', 't', 'e'], true)]
+  | .indexWhere => some [(['p', 'r', 'e', 'd', 'i', 'c', 'a', 't', 'e'], true)]
+  | .toDict => some [(['k', 'e', 'y', 'S', 'e', 'l', 'e', 'c', 't', 'o', 'r'], true), (['v', 'a', 'l', 'u', 'e', 'S', 'e', 'l', 'e', 'c', 't', 'o', 'r'], true)]
+  | .aggregate => some [(['s', 'e', 'l', 'e', 'c', 't', 'o', 'r'], true), (['s', 'e', 'e', 'd'], false)]
+  | .sum => some [(['i', 'n', 'i', 't', 'i', 'a', 'l'], false)]
+  | .first => some [(['d', 'e', 'f', 'a', 'u', 'l', 't'], false)]
+  | .take => some [(['c', 'o', 'u', 'n', 't'], false)]
+  | .skip => some [(['c', 'o', 'u', 'n', 't'], false)]
+  | .any => some [(['p', 'r', 'e', 'd', 'i', 'c', 'a', 't', 'e'], true)]
+  | .all => some [(['p', 'r', 'e', 'd', 'i', 'c', 'a', 't', 'e'], true)]
+  | _ => none
+
+/-- the methods `kwParams` speaks about, with the names they are called by (for the tie to the live registry:
+    `Props.C04Gen.kwParams_live`) -/
+def kwMethods : List (Name × Fn) := [
+  (['s', 'e', 'l', 'e', 'c', 't'], .select),
+  (['w', 'h', 'e', 'r', 'e'], .where_),
+  (['s', 'e', 'l', 'e', 'c', 't', 'M', 'a', 'n', 'y'], .selectMany),
+  (['o', 'r', 'd', 'e', 'r', 'B', 'y'], .orderBy),
+  (['o', 'r', 'd', 'e', 'r', 'B', 'y', 'D', 'e', 's', 'c', 'e', 'n', 'd', 'i', 'n', 'g'], .orderByDescending),
+  (['t', 'a', 'k', 'e', 'W', 'h', 'i', 'l', 'e'], .takeWhile),
+  (['s', 'k', 'i', 'p', 'W', 'h', 'i', 'l', 'e'], .skipWhile),
+  (['i', 'n', 'd', 'e', 'x', 'W', 'h', 'e', 'r', 'e'], .indexWhere),
+  (['t', 'o', 'D', 'i', 'c', 't'], .toDict),
+  (['a', 'g', 'g', 'r', 'e', 'g', 'a', 't', 'e'], .aggregate),
+  (['s', 'u', 'm'], .sum),
+  (['f', 'i', 'r', 's', 't'], .first),
+  (['t', 'a', 'k', 'e'], .take),
+  (['s', 'k', 'i', 'p'], .skip),
+  (['a', 'n', 'y'], .any),
+  (['a', 'l', 'l'], .all)]
+
+def kwName : Expr → Option Name
+  | .kw n => some n
+  | _ => none
+
+/-- the keyword arguments `kw` (names resolved) laid over the parameters `rest` that the positional
+    arguments left open: the expression for each parameter, in parameter order -/
+def placeKw (rest : List (Name × Bool)) (kw : List (Name × Expr)) : List (Option Expr) :=
+  rest.map fun p => (kw.find? (fun q => q.1 == p.1)).map (·.2)
+
+/-- `some`s, then only `none`s -/
+def noGap : List (Option Expr) → Bool
+  | [] => true
+  | some _ :: r => noGap r
+  | none :: r => r.all Option.isNone
+
+def provided : List (Option Expr) → List Expr
+  | some e :: r => e :: provided r
+  | _ => []
+
+def nodup : List Name → Bool
+  | [] => true
+  | n :: r => !r.contains n && nodup r
+
+/-- a call no overload accepts: the receiver is evaluated, then NoMatchingMethodException -/
+def noOverload (e : Expr) (f : Fn) : Expr := .method e f [.lit .null, .lit .null, .lit .null, .lit .null] []
+
+/-- `e.f(args, kw)` with every keyword argument moved to the position of its parameter; unchanged (and then
+    out of domain for `step`) where that is not modelled -/
+def placeMethod (e : Expr) (f : Fn) (args : List Expr) (kw : List (Expr × Expr)) : Expr :=
+  match kw with
+  | [] => .method e f args []
+  | _ =>
+    match kwParams f, kw.mapM (fun p => (kwName p.1).map (fun n => (n, p.2))) with
+    | some ps, some named =>
+      let names := named.map (·.1)
+      if !nodup names then .method e f args kw                     -- a repeated keyword: not modelled
+      else
+        let rest := ps.drop args.length
+        if ps.length < args.length || !(names.all fun n => (rest.map (·.1)).contains n) then noOverload e f
+        else
+          let placed := placeKw rest named
+          let inOrder := (rest.filter fun p => names.contains p.1).map (·.1) == names
+          let allLazy := (rest.filter fun p => names.contains p.1).all (·.2)
+          if noGap placed && (inOrder || allLazy) then .method e f (args ++ provided placed) []
+          else .method e f args kw                                  -- a gap / eager arguments out of order
+    | _, _ => .method e f args kw
+
+mutual
+def Expr.positional : Expr → Expr
+  | .lit v => .lit v
+  | .kw s => .kw s
+  | .var x => .var x
+  | .list es => .list (positionalL es)
+  | .map kvs => .map (positionalP kvs)
+  | .index e args => .index e.positional (positionalL args)
+  | .un op e => .un op e.positional
+  | .bin op a b => .bin op a.positional b.positional
+  | .arrow l r => .arrow l.positional r.positional
+  | .member e name => .member e.positional name
+  | .call f args kw => .call f (positionalL args) (positionalP kw)
+  | .ucall f args kw => .ucall f (positionalL args) (positionalP kw)
+  | .method e f args kw => placeMethod e.positional f (positionalL args) (positionalP kw)
+  | .umethod e f => .umethod e.positional f
+def positionalL : List Expr → List Expr
+  | [] => []
+  | e :: es => e.positional :: positionalL es
+def positionalP : List (Expr × Expr) → List (Expr × Expr)
+  | [] => []
+  | (k, v) :: r => (k.positional, v.positional) :: positionalP r
+end
+
+mutual
+/-- no method call of the program has a keyword argument -/
+def NoKw : Expr → Prop
+  | .lit _ | .kw _ | .var _ => True
+  | .list es => NoKwL es
+  | .map kvs => NoKwP kvs
+  | .index e args => NoKw e ∧ NoKwL args
+  | .un _ e => NoKw e
+  | .bin _ a b => NoKw a ∧ NoKw b
+  | .arrow l r => NoKw l ∧ NoKw r
+  | .member e _ => NoKw e
+  | .call _ args kw => NoKwL args ∧ NoKwP kw
+  | .ucall _ args kw => NoKwL args ∧ NoKwP kw
+  | .method e _ args kw => NoKw e ∧ NoKwL args ∧ kw = []
+  | .umethod e _ => NoKw e
+def NoKwL : List Expr → Prop
+  | [] => True
+  | e :: es => NoKw e ∧ NoKwL es
+def NoKwP : List (Expr × Expr) → Prop
+  | [] => True
+  | (k, v) :: r => NoKw k ∧ NoKw v ∧ NoKwP r
+end
+
+/-- `engine(text).evaluate(..)` for programs that pass arguments by keyword -/
+def runKw (fuel : Nat) (layers : List (List (Name × Value))) (at_ : Nat) (doc : Value) (e : Expr) : R Final :=
+  runHost fuel layers at_ doc e.positional
 
 end Yaql.Eval
